@@ -44,6 +44,28 @@ Theorem success_reply_required :
 Proof. exact read_reply_tcp. Qed.
 Print Assumptions success_reply_required.
 
+(* the tunnelled stream starts exactly after the server's reply: nothing of the reply leaks into it and
+   nothing of it is eaten, whatever the bound address type and lengths *)
+Theorem tunnel_stream_follows_the_reply :
+  forall a d port server em,
+    connect a d port server = (em, OTcp) ->
+    exists pre reply,
+      server = pre ++ reply ++ connect_rest a d port server
+      /\ (pre = [5; 0] \/ pre = [5; method_of a; 1; 0])
+      /\ reply_len (reply ++ connect_rest a d port server) = Some (lenN reply)
+      /\ exists r, reply = 5 :: 0 :: 0 :: r.
+Proof. exact connect_rest_frames. Qed.
+Print Assumptions tunnel_stream_follows_the_reply.
+
+Theorem no_stream_without_success :
+  forall a d port server, snd (connect a d port server) <> OTcp -> connect_rest a d port server = [].
+Proof. exact connect_rest_only_on_success. Qed.
+Print Assumptions no_stream_without_success.
+
+Example ex_domain_reply_then_data :
+  connect_rest ANone (DIp [1;2;3;4]) 80 ([5;0] ++ [5;0;0;3;2;104;105;0;80] ++ [161;162]) = [161;162].
+Proof. vm_compute. reflexivity. Qed.
+
 (* RFC 1928 section 7 *)
 Theorem udp_wrap_unwrap :
   forall ip port data, (lenN ip = 4 \/ lenN ip = 16) -> port < 65536 ->
